@@ -19,6 +19,16 @@ impl Imm {
     pub fn value(&self) -> i32 {
         self.0
     }
+
+    /// Two's-complement 32-bit value of `sign * magnitude`, if it has one.
+    fn from_signed_magnitude(sign: i64, magnitude: u32) -> Result<Self, ()> {
+        let value = sign * i64::from(magnitude);
+        if value < i64::from(i32::MIN) {
+            return Err(());
+        }
+        #[allow(clippy::cast_possible_truncation)]
+        Ok(Imm(value as i32))
+    }
 }
 
 impl TryFrom<Token> for Imm {
@@ -97,9 +107,9 @@ impl FromStr for Imm {
         let s = s.as_str();
         let s = s.trim();
         let (s, mul) = if let Some(stripped) = s.strip_prefix('-') {
-            (stripped, -1)
+            (stripped, -1i64)
         } else {
-            (s, 1)
+            (s, 1i64)
         };
 
         if s == "zero" {
@@ -109,8 +119,7 @@ impl FromStr for Imm {
                 Err(())
             } else {
                 match u32::from_str_radix(stripped, 16) {
-                    #[allow(clippy::cast_possible_wrap)]
-                    Ok(i) => Ok(Imm(mul * i as i32)),
+                    Ok(i) => Imm::from_signed_magnitude(mul, i),
                     Err(_) => Err(()),
                 }
             }
@@ -119,8 +128,7 @@ impl FromStr for Imm {
                 Err(())
             } else {
                 match u32::from_str_radix(stripped, 2) {
-                    #[allow(clippy::cast_possible_wrap)]
-                    Ok(i) => Ok(Imm(mul * i as i32)),
+                    Ok(i) => Imm::from_signed_magnitude(mul, i),
                     Err(_) => Err(()),
                 }
             }
@@ -128,8 +136,8 @@ impl FromStr for Imm {
             if s.starts_with('-') {
                 return Err(());
             }
-            match s.parse::<i32>() {
-                Ok(i) => Ok(Imm(mul * i)),
+            match s.parse::<i64>() {
+                Ok(i) => i32::try_from(mul * i).map(Imm).map_err(|_| ()),
                 Err(_) => Err(()),
             }
         }
